@@ -4,7 +4,8 @@
 (* for the DECLARED problem size: each callback enabled in the current state,   *)
 (* vectors never offered beyond the declared sizes, suffix names and tables     *)
 (* within the lengths stated in the file, nothing delivered after a vector was  *)
-(* left incomplete, a terminal Result with a documented code (and a message if  *)
+(* left incomplete, no more values reported as read than the (truncated binary) *)
+(* file completely holds, a terminal Result with a documented code (and a message if *)
 (* it is not OK).  Crash / Hang / Throw records are never explained.  The first *)
 (* callback of a read that the automaton cannot take is printed as BAD and the  *)
 (* rest of that read is skipped.                                                *)
@@ -15,7 +16,8 @@ VARIABLES l, cur, st, k, live
 \* live: the read is still being followed (no BAD yet, no Result yet)
 vars == <<l, cur, st, k, live>>
 E == Lines[l]
-NoCase == [id |-> -1, fmt |-> "-", mut |-> "-", cls |-> "-", decl |-> "-", mode |-> "-", nv |-> 0, nc |-> 0, hdrs |-> <<>>]
+NoCase == [id |-> -1, fmt |-> "-", mut |-> "-", cls |-> "-", decl |-> "-", mode |-> "-", nv |-> 0, nc |-> 0, hdrs |-> <<>>,
+           avail |-> [dual |-> -1, primal |-> -1, suf |-> <<>>]]
 Bad(why) == PrintT(<<"BAD", ToJson([line |-> l, id |-> cur.id, fmt |-> cur.fmt, mut |-> cur.mut, cls |-> cur.cls,
                                     decl |-> cur.decl, mode |-> cur.mode, why |-> why, ev |-> E.e])>>)
 Step == l' = l + 1
@@ -38,6 +40,15 @@ SufWithinHeader(x) ==
         /\ x.offered = h.n
         /\ x.kind = h.kind
 
+\* "a failure never leaves the handler with a partially delivered vector reported as complete":
+\* the handler was not told that more values were read than the file completely contains
+\* (stated by the harness for truncated binary files read with the true sizes; -1 = not stated)
+AvailFor(x) == CASE x.e = "OnDualSolution" -> cur.avail.dual
+                 [] x.e = "OnPrimalSolution" -> cur.avail.primal
+                 [] IsSuf(x) -> IF k + 1 <= Len(cur.avail.suf) THEN cur.avail.suf[k + 1] ELSE -1
+                 [] OTHER -> -1
+AvailOK(x) == AvailFor(x) < 0 \/ x.read <= AvailFor(x)
+
 \* why the automaton refuses an event (label for the report; most specific first)
 Why(x) ==
   CASE x.e = "OnDualSolution" /\ x.offered > st.nc -> "dual-offered-beyond-declared"
@@ -57,11 +68,12 @@ TCase == /\ E.e = "Case" /\ Step
 TEvent == /\ E.e \in (Callbacks \cup {"Result"}) /\ Step /\ UNCHANGED cur
           /\ IF ~live THEN UNCHANGED <<st, k, live>> /\ (cur.id >= 0 \/ Bad("stray"))
              ELSE LET ev == PEv(E)
-                      ok == ProtoEnabled(st, ev) /\ (IsSuf(E) => SufWithinHeader(E))
+                      ok == ProtoEnabled(st, ev) /\ (IsSuf(E) => SufWithinHeader(E)) /\ AvailOK(E)
                   IN /\ st' = IF ok THEN ProtoApply(st, ev) ELSE st
                      /\ k' = IF IsSuf(E) THEN k + 1 ELSE k
                      /\ live' = (ok /\ E.e # "Result")
-                     /\ ok \/ Bad(IF ProtoEnabled(st, ev) THEN "suffix-beyond-stated-length" ELSE Why(E))
+                     /\ ok \/ Bad(IF ~ProtoEnabled(st, ev) THEN Why(E)
+                                  ELSE IF ~AvailOK(E) THEN "partial-vector-reported-complete" ELSE "suffix-beyond-stated-length")
 TCrash == /\ E.e \in {"Crash", "Hang", "Throw"} /\ Step /\ UNCHANGED <<cur, st, k>> /\ live' = FALSE
           /\ Bad(IF E.e = "Crash" THEN "crash-" \o (IF "cls" \in DOMAIN E THEN E.cls ELSE "harness") ELSE IF E.e = "Throw" THEN "throw-" \o (IF "kind" \in DOMAIN E THEN E.kind ELSE "unknown") ELSE "hang")
 TOther == /\ E.e \notin (Callbacks \cup {"Result", "Case", "Crash", "Hang", "Throw"})
